@@ -490,6 +490,9 @@ pub enum OOp {
     OpenKeep(String),
     /// SETATTR(mode) carrying the kept handle
     ChmodKept(String),
+    /// RENAME(src -> dst). The overlay does not implement it (EXDEV); the oracle is two-way: either it fails and
+    /// nothing changes (view, layers, restart), or it succeeds and the view is what an ordinary filesystem shows
+    Rename(String, String),
 }
 
 impl OOp {
@@ -497,6 +500,7 @@ impl OOp {
         match self {
             OOp::CreateExcl(p) | OOp::CreateTrunc(p) | OOp::Mkdir(p) | OOp::Mknod(p) | OOp::Symlink(p) | OOp::Unlink(p) | OOp::Rmdir(p) | OOp::Write(p) | OOp::OpenTrunc(p) | OOp::OpenRdTrunc(p) | OOp::Truncate(p) | OOp::Chmod(p) | OOp::SetXattr(p) | OOp::RemoveXattr(p) | OOp::Chown(p) | OOp::OpenKeep(p) | OOp::ChmodKept(p) => p,
             OOp::Link(_, p) => p,
+            OOp::Rename(_, p) => p,
         }
     }
     pub fn kind(&self) -> &'static str {
@@ -519,6 +523,7 @@ impl OOp {
             OOp::Chown(_) => "chown",
             OOp::OpenKeep(_) => "open-keep",
             OOp::ChmodKept(_) => "chmod-kept-handle",
+            OOp::Rename(..) => "rename",
         }
     }
 }
@@ -597,6 +602,46 @@ pub fn model_apply(root: &mut VNode, op: &OOp) -> Option<Result<(), i32>> {
         OOp::Mkdir(_) => add(root, VNode::Dir { mode: 0o755, children: BTreeMap::new(), xattrs: nx() }),
         OOp::Mknod(_) => add(root, VNode::File { content: vec![], mode: 0o600, xattrs: nx() }),
         OOp::Symlink(_) => add(root, VNode::Symlink { target: b"tgt".to_vec() }),
+        OOp::Rename(src, dst) => {
+            // POSIX rename on the plain tree
+            let node = match mget(root, src) {
+                Ok(n) => n.clone(),
+                Err(e) => return Some(Err(e)),
+            };
+            if dst.starts_with(&format!("{}/", src)) {
+                return Some(Err(libc::EINVAL));
+            }
+            if src == dst {
+                return Some(Ok(()));
+            }
+            match mget(root, dst) {
+                Ok(VNode::Dir { children, .. }) => {
+                    if !matches!(node, VNode::Dir { .. }) {
+                        return Some(Err(libc::EISDIR));
+                    }
+                    if !children.is_empty() {
+                        return Some(Err(libc::ENOTEMPTY));
+                    }
+                }
+                Ok(_) => {
+                    if matches!(node, VNode::Dir { .. }) {
+                        return Some(Err(libc::ENOTDIR));
+                    }
+                }
+                Err(libc::ENOENT) => {}
+                Err(e) => return Some(Err(e)),
+            }
+            match mget_mut(root, pp) {
+                Ok(VNode::Dir { children, .. }) => {
+                    children.insert(name.to_string(), node);
+                }
+                Ok(_) => return Some(Err(libc::ENOTDIR)),
+                Err(e) => return Some(Err(e)),
+            }
+            let (spp, sname) = split(src);
+            mget_mut(root, spp).unwrap().children_mut().unwrap().remove(sname);
+            Ok(())
+        }
         OOp::Link(src, _) => match mget(root, src) {
             Ok(VNode::Dir { .. }) => Err(libc::EPERM),
             Ok(n) => {
@@ -805,6 +850,20 @@ pub fn real_apply(inst: &Instance, cl: &mut Client, op: &OOp, kept: &mut BTreeMa
             }
             cl.symlink(s, parent.nodeid, name.as_bytes(), b"tgt").map(|_| ())
         }
+        OOp::Rename(src, _) => {
+            // the kernel looks both names up (the source must exist) and then sends RENAME
+            let (spp, sname) = split(src);
+            let sparent = dir_parent(inst, cl, spp)?;
+            if child(inst, cl, &sparent, sname)?.is_none() {
+                return Err(libc::ENOENT);
+            }
+            let parent = dir_parent(inst, cl, pp)?;
+            let _ = child(inst, cl, &parent, name)?;
+            match cl.rename(s, sparent.nodeid, sname.as_bytes(), parent.nodeid, name.as_bytes(), 0) {
+                0 => Ok(()),
+                e => Err(e),
+            }
+        }
         OOp::Link(src, _) => {
             let srcn = resolve(inst, cl, src)?;
             let parent = dir_parent(inst, cl, pp)?;
@@ -985,6 +1044,19 @@ pub fn run_case(stack: &Stack, seq: &[OOp], cl: &mut Client, with_restart: bool,
         let got = real_apply(&w.live, cl, op, &mut kept);
         COLD.with(|c| c.set(false));
         f.results.push(format!("{:?}", got));
+        // RENAME: the overlay may refuse it (it does: EXDEV); then nothing may have changed. If it succeeds the result
+        // must be the ordinary one.
+        let want = if matches!(op, OOp::Rename(..)) {
+            match (&got, want) {
+                (Err(e), _) => {
+                    m2 = model.clone();
+                    Some(Err(*e))
+                }
+                (Ok(()), w) => w,
+            }
+        } else {
+            want
+        };
         let Some(want) = want else {
             // undefined in the model: only the invariants (lowers untouched, restart equivalence) are checked
             let mut pr = Vec::new();
@@ -1256,7 +1328,10 @@ pub fn run(args: &Args, prop: &'static str) -> Report {
     let lowers = layer_contents("L", 0o1777, 0o640, OPAQUE_NAMES[1]);
     let lowers2 = layer_contents("M", 0o750, 0o600, OPAQUE_NAMES[2]);
     let small_paths = ["a", "d", "d/a", "n", "d/n"];
-    let small_ops = ops_for(&small_paths, &["a", "d/a"]);
+    let mut small_ops = ops_for(&small_paths, &["a", "d/a"]);
+    for (src, dst) in [("a", "n"), ("a", "d/n"), ("d", "n"), ("d/a", "n"), ("a", "d/a"), ("d", "a")] {
+        small_ops.push(OOp::Rename(src.into(), dst.into()));
+    }
     // removal and re-creation, the operations whose effect lives in whiteouts and opaque markers
     let switch_ops: Vec<OOp> = small_ops.iter().filter(|o| matches!(o, OOp::Unlink(_) | OOp::Rmdir(_) | OOp::Mkdir(_) | OOp::CreateExcl(_) | OOp::Symlink(_)) && o.path() != "n" && o.path() != "d/n").cloned().collect();
     // Order: the small targeted families first, the large products last, so that a run that hits its wall-clock budget
